@@ -180,7 +180,9 @@ func newEnv() *env {
 	ev := dig.Event{Name: "Transfer", Type: "event", Inputs: []dig.Input{{Indexed: true, Name: "a", Type: "address", Column: "a"}}}
 	g := simnode.Gen{Start: 100, N: 3, NTopics: 2, DataLen: -1, Topics0: [][]byte{ev.SignatureHash()}, Salt: 5,
 		Shape: func(bn uint64) (int, func(int) int, func(int) int) {
-			return 2, func(int) int { return 2 }, func(ti int) int { return 2 + ti }
+			// three transactions per block: two logs, NO log (a plain transfer), one log;
+			// the blocks mix log-less and log-carrying transactions
+			return 3, func(ti int) int { return []int{2, 0, 1}[(ti+int(bn))%3] }, func(ti int) int { return 2 + ti%2 }
 		}}
 	ch := simnode.NewChain(g, nil)
 	// transaction inputs stay non-empty although the logs carry no data
